@@ -54,6 +54,11 @@ pub struct JitWorld {
   pub base_io: fn(&mut Core),
   /// banked worlds: the ROM bank to re-select after a block wrote to the controller
   pub base_bank: Option<u8>,
+  /// value placed in the upper 48 bits of the host's callee-saved registers r12/r13 before
+  /// translated code is entered (None = call through CodeCache::call and leave them to chance)
+  pub host_garbage: Option<u64>,
+  pub garbage_calls: u64,
+  pub plain_calls: u64,
 }
 
 fn quiescent_io(_c: &mut Core) {}
@@ -82,6 +87,9 @@ impl JitWorld {
       code_dirty: true,
       base_io: quiescent_io,
       base_bank: None,
+      host_garbage: Some(1),
+      garbage_calls: 0,
+      plain_calls: 0,
     }
   }
 
@@ -117,6 +125,9 @@ impl JitWorld {
       code_dirty: true,
       base_io: quiescent_io,
       base_bank: Some(bank),
+      host_garbage: Some(1),
+      garbage_calls: 0,
+      plain_calls: 0,
     }
   }
 
@@ -219,6 +230,10 @@ impl JitWorld {
     if o.writes.iter().any(|(a, _)| (0xFF00..=0xFF7F).contains(a) || *a == 0xFFFF || *a < 0x8000) {
       o.io_digest = self.io_digest();
     }
+    if !world::hooks_on() {
+      // no bus recorder: the effect on memory and devices is observed as a digest of everything
+      o.io_digest = self.io_digest() ^ world::big_digest(&self.core).rotate_left(17);
+    }
     o
   }
 
@@ -278,14 +293,40 @@ impl JitWorld {
     let addr = self.cur.unwrap().1;
     let regs: *mut Registers = &mut self.core.registers;
     let cache = self.cache.as_ref().unwrap();
+    // host garbage: deterministic function of the guest registers of this case
+    let entry = match self.host_garbage {
+      Some(g) if g >= 0x10000 => locate_entry(cache).map(|(p, e)| (p, e, g)),
+      Some(_) => {
+        let k = (c.a as u32 ^ c.f as u32 >> 4 ^ c.l as u32 ^ c.sp as u32 ^ (c.sp as u32 >> 8)) % 3;
+        let g = match k {
+          0 => 0xFFFF_FFFF_FFFF_0000u64,
+          1 => 0xA5A5_5A5A_C3C3_0000u64,
+          _ => 0x0000_0000_0001_0000u64,
+        };
+        locate_entry(cache).map(|(p, e)| (p, e, g))
+      },
+      None => None,
+    };
     world::trace_start();
-    let st = cache.call(addr, unsafe { &mut *regs });
+    let st = match entry {
+      Some((prologue, epilogue, g)) => {
+        self.garbage_calls += 1;
+        call_with_host_state(cache.get_memory_start_address(), prologue, epilogue, addr, regs, g)
+      },
+      None => {
+        self.plain_calls += 1;
+        cache.call(addr, unsafe { &mut *regs })
+      },
+    };
     let (trace, ovf) = world::trace_stop();
     self.observe(Ok(st), trace, ovf)
   }
 
   /// Undo everything the last engine run wrote, then re-apply the active pokes.
   pub fn restore(&mut self, obs: &BlockObs) {
+    if !world::hooks_on() {
+      return self.restore_everything();
+    }
     if obs.writes.is_empty() {
       return;
     }
@@ -327,6 +368,38 @@ impl JitWorld {
   }
 }
 
+impl JitWorld {
+  /// hooks-off build: nothing tells which bytes were written, so every RAM region is restored
+  /// from the pristine image and the devices are rebuilt
+  fn restore_everything(&mut self) {
+    let m = &mut self.core.memory;
+    m.video_ram.copy_from_slice(&self.pristine.vram);
+    m.cart_ram.copy_from_slice(&self.pristine.cart_ram);
+    m.work_ram.copy_from_slice(&self.pristine.wram);
+    m.oam_ram.copy_from_slice(&self.pristine.oam);
+    m.high_ram.copy_from_slice(&self.pristine.hram);
+    m.io = IO::new();
+    let mp = m as *mut MemoryAreas;
+    crate::mem::memory_write_byte(mp, 0xFF46, 0xFF);
+    crate::mem::memory_write_byte(mp, 0xFFFF, 0);
+    self.core.memory.oam_dma = None;
+    (self.base_io)(&mut self.core);
+    if let Some(b) = self.base_bank {
+      let mp = &mut self.core.memory as *mut MemoryAreas;
+      crate::mem::memory_write_byte(mp, 0x0000, 0x00);
+      crate::mem::memory_write_byte(mp, 0x6000, 0x00);
+      crate::mem::memory_write_byte(mp, 0x4000, 0x00);
+      crate::mem::memory_write_byte(mp, 0x2100, b);
+    }
+    for i in 0..self.desired.len() {
+      let (a, v) = self.desired[i];
+      if a >= 0x8000 {
+        poke_raw(&mut self.core.memory, a, v);
+      }
+    }
+  }
+}
+
 pub fn panic_text(e: Box<dyn std::any::Any + Send>) -> String {
   if let Some(s) = e.downcast_ref::<String>() {
     s.clone()
@@ -335,4 +408,76 @@ pub fn panic_text(e: Box<dyn std::any::Any + Send>) -> String {
   } else {
     "panic".to_string()
   }
+}
+
+/// Offsets of the shared prologue and epilogue inside the cache's executable area, found by
+/// matching the byte sequences the emitter itself produces (the fields holding them are
+/// private).  None if they are not where `CodeCache::new` is known to put them.
+fn locate_entry(cache: &CodeCache) -> Option<(usize, usize)> {
+  let mut pro = [0u8; 128];
+  let mut epi = [0u8; 128];
+  let pl = crate::emitter::Emitter::write_prelude_function(&mut pro);
+  let el = crate::emitter::Emitter::write_epilogue_function(&mut epi);
+  let start = cache.get_memory_start_address() as *const u8;
+  let mem = unsafe { std::slice::from_raw_parts(start, pl + el) };
+  if mem[..pl] == pro[..pl] && mem[pl..pl + el] == epi[..el] {
+    Some((0, pl))
+  } else {
+    None
+  }
+}
+
+/// What `CodeCache::call` does — enter the prologue with (registers, block, epilogue) — but with
+/// chosen values in the host's callee-saved r12/r13, whose low 16 bits the prologue overwrites
+/// with SP/PC, and stale values in rax, rbx, rcx, r10, r11, r14 and r15.  Translated code must
+/// not let anything the host happened to leave in a register influence the guest.
+fn call_with_host_state(start: usize, prologue: usize, epilogue: usize, block: usize, regs: *mut Registers, garbage: u64) -> u8 {
+  let func = start + prologue;
+  let blk = start + block;
+  let epi = start + epilogue;
+  let ret: u64;
+  unsafe {
+    std::arch::asm!(
+      "push rbp",
+      "mov rbp, rsp",
+      "and rsp, -16",
+      "push r12",
+      "push r13",
+      "push r14",
+      "push r15",
+      "push rbx",
+      "sub rsp, 8",
+      "mov r12, r9",
+      "mov r13, r9",
+      // the other registers the prologue loads or clears, and the scratch registers of the
+      // templates, start out fully stale (low bits too)
+      "mov r14, r9",
+      "or r14, 0x5A5A",
+      "mov r15, r14",
+      "mov rbx, r14",
+      "mov rax, r14",
+      "mov rcx, r14",
+      "mov r10, r14",
+      "mov r11, r14",
+      "call r8",
+      "add rsp, 8",
+      "pop rbx",
+      "pop r15",
+      "pop r14",
+      "pop r13",
+      "pop r12",
+      "mov rsp, rbp",
+      "pop rbp",
+      inout("r8") func => _,
+      inout("r9") garbage => _,
+      inout("rdi") regs => _,
+      inout("rsi") blk => _,
+      inout("rdx") epi => _,
+      out("rax") ret,
+      out("rcx") _,
+      out("r10") _,
+      out("r11") _,
+    );
+  }
+  ret as u8
 }
